@@ -206,13 +206,16 @@ SLOT_PATHS = ['in/req0.txt', 'in dir/req 1.txt', 'deep/a/b/req2.txt', 'decoy/Exa
 FMTS = [None, None, None, None, None, 'crlf', 'nofinalnl', 'trailing', 'bom', 'comments', 'tabs']
 
 
-def gen_request(cs, templates, kind=None, allow_slow=False, fail=None, neighbour_of=None):
-    req = _gen_request(cs, templates, kind, allow_slow, fail, neighbour_of)
+def gen_request(cs, templates, kind=None, allow_slow=False, fail=None, neighbour_of=None, family=None):
+    req = _gen_request(cs, templates, kind, allow_slow, fail, neighbour_of, family)
     req['fmt'] = FMTS[cs.choose(len(FMTS), 'fmt')] if neighbour_of is None or cs.choose(3, 'nfmt') == 2 else neighbour_of.get('fmt')
     return req
 
 
-def _gen_request(cs, templates, kind=None, allow_slow=False, fail=None, neighbour_of=None):
+RESMODEL_FAMILY = ('geo_mpf_small', 'geo_lhs_small', 'geo_sf_sorc', 'geo_tdp_orc', 'example2')
+
+
+def _gen_request(cs, templates, kind=None, allow_slow=False, fail=None, neighbour_of=None, family=None):
     if neighbour_of is not None:
         # same configuration family, exactly one more parameter moved: the pairs that expose incomplete memo keys
         ti = neighbour_of['template']
@@ -225,6 +228,11 @@ def _gen_request(cs, templates, kind=None, allow_slow=False, fail=None, neighbou
         tweaks = [x for x in neighbour_of['tweaks'] if tw is None or x[0] != tw[0]] + ([tw] if tw else [])
         return {'template': ti, 'tweaks': [tuple(x) for x in tweaks], 'poison': None}
     pool = [i for i, t in enumerate(templates) if (kind is None or t['kind'] == kind) and (allow_slow or t['cost'] == 'fast')]
+    if family and kind != 'hip':
+        # a small family of configurations that differ in the reservoir model; one request in three fails INSIDE the calculation
+        pool = [i for i in pool if templates[i]['name'] in family] or pool
+        if fail is None:
+            fail = cs.choose(3, 'fpoison') == 2
     ti = pool[cs.choose(len(pool), 'template')]
     t = templates[ti]
     tweaks_tab = HW.HIP_TWEAKS if t['kind'] == 'hip' else HW.GEO_TWEAKS
@@ -241,7 +249,7 @@ def _gen_request(cs, templates, kind=None, allow_slow=False, fail=None, neighbou
     if fail is None:
         fail = cs.choose(5, 'poison') == 4
     if fail:
-        ptab = HW.HIP_POISON if t['kind'] == 'hip' else HW.GEO_POISON
+        ptab = HW.HIP_POISON if t['kind'] == 'hip' else (HW.GEO_CALC_POISON if family else HW.GEO_POISON)
         poison = ptab[cs.choose(len(ptab), 'poisonv')]
     return {'template': ti, 'tweaks': tweaks, 'poison': poison}
 
@@ -286,7 +294,7 @@ def _layout(s, fmt):
     return '\n'.join(out)
 
 
-THEMES = ['mixed', 'cache', 'paths', 'mixed', 'faults', 'cache', 'hip']
+THEMES = ['mixed', 'cache', 'paths', 'mixed', 'faults', 'cache', 'hip', 'resmodels']
 
 
 def gen_history(cs, templates, tier, force=None):
@@ -295,6 +303,7 @@ def gen_history(cs, templates, tier, force=None):
     h = {}
     theme = force.get('theme') or THEMES[cs.choose(len(THEMES), 'theme')]
     h['theme'] = theme
+    fam = None
     h['faulty'] = force.get('faulty', theme == 'faults' or (theme == 'mixed' and cs.choose(4, 'faulty') == 3))
     allow_slow = cs.choose(4, 'slow') == 3 if tier == 'thorough' else cs.choose(12, 'slow') == 11
     h['start_cwd'] = CWD_DIRS[cs.choose(len(CWD_DIRS), 'startcwd')]
@@ -315,6 +324,17 @@ def gen_history(cs, templates, tier, force=None):
         slot_tab = [0, 0, 0, 1]
         client_tab = [0, 1]
         p_neighbour = 3
+    elif theme == 'resmodels':
+        # requests of a few reservoir-model families one after the other through a client that computes every time, a third of
+        # them failing inside the calculation: whatever a (failed) calculation leaves behind in a shared numerical library
+        # (mpmath precision, numpy error state) or in a module shows in the next family's numbers
+        kinds = ['run'] * 5 + ['rewrite'] * 5 + ['chdir']
+        entries = ['client'] * 5 + ['main_argv', 'cli', 'client_params']
+        slot_tab = [0, 0, 1]
+        client_tab = [1, 1, 1, 0]
+        p_neighbour = 0
+        fam = RESMODEL_FAMILY
+        nops = 6 + cs.choose(5, 'nops_res')
     elif theme == 'paths':
         kinds = ['run'] * 6 + ['chdir'] * 3 + ['rewrite', 'argv', 'delete']
         entries = ['cli'] * 5 + ['main_argv', 'client', 'hip']
@@ -359,7 +379,7 @@ def gen_history(cs, templates, tier, force=None):
             slot = slot_tab[cs.choose(len(slot_tab), 'slot')]
             rk = 'hip' if entry == 'hip' else 'geo'
             if slot not in slots or slots[slot]['kind'] != rk:
-                req = gen_request(cs, templates, rk, allow_slow)
+                req = gen_request(cs, templates, rk, allow_slow, family=fam)
                 ops.append({'op': 'write', 'slot': slot, 'req': req, 'kind': rk})
                 slots[slot] = {'kind': rk, 'req': req}
             mk_run(entry, slot)
@@ -370,12 +390,12 @@ def gen_history(cs, templates, tier, force=None):
             if cs.choose(4, 'neighbour') < p_neighbour:
                 req = gen_request(cs, templates, neighbour_of=slots[sl]['req'])
             else:
-                req = gen_request(cs, templates, slots[sl]['kind'], allow_slow)
+                req = gen_request(cs, templates, slots[sl]['kind'], allow_slow, family=fam)
             slots[sl]['req'] = req
             ops.append({'op': 'write', 'slot': sl, 'req': req, 'kind': slots[sl]['kind'], 'keep_mtime': cs.choose(4, 'keep_mtime') == 3})
             if slots[sl]['kind'] == 'hip' and theme == 'hip':
                 mk_run('hip', sl)
-            elif slots[sl]['kind'] == 'geo' and (theme == 'cache' or cs.choose(2, 'rerun') == 1):
+            elif slots[sl]['kind'] == 'geo' and (theme in ('cache', 'resmodels') or cs.choose(2, 'rerun') == 1):
                 # run the rewritten file again straight away (the interesting case for caches)
                 mk_run('client' if theme != 'paths' else 'cli', sl)
         elif kind == 'chdir':
